@@ -63,12 +63,13 @@ Proof. exact unrequested_untouched_proof. Qed.
 Print Assumptions c14_unrequested_untouched.
 
 (* work_fn is invoked at most once, and in the state [sw] in which it is
-   invoked the operation owns every requested resource *)
+   invoked the operation is active and owns every requested resource *)
 Theorem c14_work_once_holding_all :
   forall fl w s o p reqs sc,
     let res := snd (exec_op fl w s o p reqs sc) in
     (length (filter is_work (r_log res)) <= 1)%nat /\
-    (forall sw, In (EvWork sw) (r_log res) -> forall r, In r reqs -> owner sw r = Some o).
+    (forall sw, In (EvWork sw) (r_log res) ->
+       In o (active sw) /\ forall r, In r reqs -> owner sw r = Some o).
 Proof. exact work_once_holding_all_proof. Qed.
 Print Assumptions c14_work_once_holding_all.
 
@@ -117,3 +118,32 @@ Theorem c14_shutdown_no_leak :
     WF s' /\ active s' = [] /\ forall r, owner s' r = None.
 Proof. exact shutdown_no_leak_proof. Qed.
 Print Assumptions c14_shutdown_no_leak.
+
+(* Ending an operation (kill / abort / complete through the step API, also of an
+   operation that was PREEMPTED earlier and still lists the resource) changes
+   only locks it owns at that moment: every other lock is left exactly as it was *)
+Theorem c14_end_changes_only_own_locks :
+  forall w s a o,
+    WF s -> a = FKill o \/ a = FAbort o \/ a = FComplete o ->
+    forall r, owner s r <> Some o -> get_lock (fst (fstep current w s a)) r = get_lock s r.
+Proof. exact end_own_locks_proof. Qed.
+Print Assumptions c14_end_changes_only_own_locks.
+
+(* Watchdog.execute changes only locks owned by the operations it terminates *)
+Theorem c14_watchdog_changes_only_victims_locks :
+  forall w s,
+    WF s ->
+    forall r, (forall v why, In (v, why) (snd (wd_execute current w s)) -> owner s r <> Some v) ->
+    get_lock (fst (wd_execute current w s)) r = get_lock s r.
+Proof. exact watchdog_own_locks_proof. Qed.
+Print Assumptions c14_watchdog_changes_only_victims_locks.
+
+(* execute_operation ends by completing/aborting in a well-formed state sX and
+   changes, from there, only locks the operation owns in sX *)
+Theorem c14_exec_end_changes_only_own_locks :
+  forall w s o p reqs sc,
+    WF s -> get_ctx s o = None ->
+    exists sX, WF sX /\ fst (exec_op current w s o p reqs sc) = finish current sX o /\
+      forall r, owner sX r <> Some o -> get_lock (fst (exec_op current w s o p reqs sc)) r = get_lock sX r.
+Proof. exact exec_end_own_locks_proof. Qed.
+Print Assumptions c14_exec_end_changes_only_own_locks.
